@@ -42,7 +42,8 @@ class VDaemon(SV.Daemon):
         if m["mode"] == "raise":
             exc = {"SecurityError": E.SecurityError, "ValueError": ValueError, "KeyError": KeyError,
                    "Custom": CustomDenied, "Exception": Exception, "PermissionError": PermissionError,
-                   "AssertionError": AssertionError}[m["exc"]]
+                   "AssertionError": AssertionError, "PyroTimeoutError": E.TimeoutError,
+                   "PyroConnectionClosedError": E.ConnectionClosedError, "PyroProtocolError": E.ProtocolError}[m["exc"]]
             if m.get("bare"):
                 raise exc()          # an exception without any message is still a refusal
             raise exc("VMSG-%s" % m["exc"])
@@ -92,7 +93,7 @@ class PreHandshakeWorld(World):
             "time (virtual clock)", "raw scripted peers"]
     PROBES = ["m1_not_connect", "m1_unknown_serializer", "m1_unknown_object", "m1_bad_shape", "validator_raised", "validator_odd_return",
               "pipelined_after_fail", "pipelined_after_ok", "connectfail_seen", "connectok_seen", "legit_ok", "m1_truncated",
-              "m1_mutated", "multiplex", "thread", "validator_bare_exception", "unregister_raced", "garbage_bad_prefix"]
+              "m1_mutated", "multiplex", "thread", "validator_bare_exception", "unregister_raced", "garbage_bad_prefix", "m1_stalled_until_commtimeout"]
     RULE = ("plan = (server type, COMMTIMEOUT, validator behaviour, 1-3 raw peers each with first message spec + 0-3 pipelined message "
             "specs sent in one write or several, optional legitimate client); distinct = distinct interleaving digest; "
             "non-trivial = at least one peer's first message was not a pristine accepted CONNECT")
@@ -110,7 +111,8 @@ class PreHandshakeWorld(World):
             validator = {"mode": "accept"}
         elif vm < 0.8:
             validator = {"mode": "raise", "exc": rng.choice(["SecurityError", "ValueError", "KeyError", "Custom", "Exception",
-                                                             "PermissionError", "AssertionError"]),
+                                                             "PermissionError", "AssertionError", "PyroTimeoutError",
+                                                             "PyroConnectionClosedError", "PyroProtocolError"]),
                          "bare": rng.random() < 0.3}
         else:
             validator = {"mode": "return", "ret": rng.choice(["none", "large", "unserialisable", "dict"])}
@@ -311,6 +313,12 @@ class PreHandshakeWorld(World):
             rec = r["received"]
             first = rec[0] if rec else None
             klass = self._classify(m1, vm, pristine)
+            if klass == "trunc":
+                # an incomplete first message from a peer that stays connected: with a server COMMTIMEOUT the daemon itself gives
+                # up on it - and has to say so (CONNECTFAIL with the reason); without one it legitimately waits for the peer
+                klass = "fail:timeout" if (plan["commtimeout"] and not spec["pipe"]) else "unknown"
+                if klass == "fail:timeout":
+                    ctx.probe("m1_stalled_until_commtimeout")
             if klass != "ok":
                 nontrivial = True
             if m1.get("trunc") is not None:
@@ -388,7 +396,7 @@ class PreHandshakeWorld(World):
                 return "fail:bad-prefix"
             return "unknown"
         if m1.get("trunc") is not None:
-            return "unknown"
+            return "trunc" if not muts and m1["base"] != "garbage" and m1["trunc"] < 0.999 else "unknown"
         if any(m["f"] in ("tag", "version", "magic") for m in muts) and len(muts) == 1:
             return "fail:bad-header"
         if m1["base"] == "connect" and len(muts) == 1 and muts[0]["f"] == "ser" and muts[0]["v"] not in (1, 2, 3, 4):
